@@ -10,7 +10,7 @@ THEOREMS = ["C30_build_total",
             "C30_trivia_partition", "C30_trivia_partition_refuted", "C30_trivia_partition_partial",
             "C30_emit_roundtrip_id", "C30_emit_roundtrip_id_refuted", "C30_emit_roundtrip_id_partial",
             "C30_print_file_roundtrip", "C30_print_file_roundtrip_refuted", "C30_print_file_roundtrip_partial",
-            "C30_per_decl_concat_refuted"]
+            "C30_per_decl_concat", "C30_per_decl_concat_refuted"]
 AXIOMS_OK = []
 TRUSTED = ["hand-written Gallina model of trivia.go (buildTriviaIndex, walkScope, walkDecl, walkFused, splitDetached) and of the "
            "token-level replay of the index in round-trip mode (Model/Trivia.v); token.Cursor push-back is modelled by handing "
@@ -114,11 +114,44 @@ def solid_texts(toks):
     return [(c, bytes.fromhex(t)) for c, t, d, r in (toks or []) if c > 1]
 
 
+def comment_accounting(src, rt, src_toks, exempt=()):
+    """No known defect class loses or duplicates the text of a comment (some move one, re-indent a block
+    comment, or let a line comment swallow what follows it).  Compared on whitespace-normalised texts:
+    every comment of the source must occur in the output as often as in the source."""
+    import re
+    norm = lambda t: re.sub(rb"\s+", b" ", t).strip()
+    a, b = norm(src), norm(rt)
+    keys = set()
+    exempt = [norm(x) for x in exempt]
+    for c in set(norm(bytes.fromhex(t)) for c, t, d, r in (src_toks or []) if c in (2, 3)):
+        if len(c) < 4:
+            continue          # `//` and the like occur inside every other comment
+        na, nb = a.count(c), b.count(c)
+        # comments attached to a message-literal separator go with it (known class)
+        na -= sum(1 for x in exempt if c in x)
+        if nb < na:
+            keys.add("roundtrip-loses-comment")
+        elif nb > na:
+            keys.add("roundtrip-duplicates-comment")
+    return keys
+
+
 def classify(src, o, what):
     """keys of the known defect classes whose trigger is present in a failing source"""
-    F = set(prnlib.analyse(o["tree"], o["att"], o["det"], src))
+    extra = {}
+    F = set(prnlib.analyse(o["tree"], o["att"], o["det"], src, extra))
     if what == "whole":
         F |= prnlib.eof_features(src, o["tree"])
+        texts = {}
+
+        def collect(ts):
+            for t in ts:
+                texts[t["id"]] = bytes.fromhex(t["t"])
+                if t["c"] >= 9:
+                    collect(t["ch"])
+        collect(o["tree"] or [])
+        exempt = [texts[i] for i in extra.get("sep_leading", []) if extra["cls"].get(i) in (2, 3)]
+        F |= comment_accounting(src, bytes.fromhex(o["rt"]), o.get("src_toks"), exempt)
         a, b = solid_texts(o.get("src_toks")), solid_texts(o.get("rt_toks"))
         if a != b:
             # tokens that are missing from the output although no message-literal separator explains them
